@@ -45,6 +45,56 @@ def gen_wf(rng, pool, dur, allow_blackman=True, sign=None):
     return ["blackman", abs(v) * dur / 1000.0 if v else 0.1]
 
 
+def noisy_step(rng, xy):
+    """a configuration with shot-to-shot randomness (bad atoms, doppler shifts,
+    amplitude fluctuations) or collapse operators"""
+    kinds = ["spam", "spam", "spam-meas"] if xy else \
+        ["spam", "spam", "spam", "doppler", "doppler", "amplitude", "spam+doppler", "dephasing", "spam-meas"]
+    k = rng.choice(kinds)
+    how = rng.choice(["set", "set", "add"])
+    if k == "spam":
+        return [how, dict(noise=["SPAM"], eta=rng.choice([0.5, 0.9, 0.99, 1.0]),
+                          epsilon=rng.choice([0.0, 0.01]), epsilon_prime=rng.choice([0.0, 0.05]))]
+    if k == "spam-meas":
+        return [how, dict(noise=["SPAM"], eta=0.0, epsilon=0.02, epsilon_prime=0.03)]
+    if k == "doppler":
+        return [how, dict(noise=["doppler"], temperature=rng.choice([50.0, 1000.0, 5000.0]))]
+    if k == "amplitude":
+        return [how, dict(noise=["amplitude"], amp_sigma=rng.choice([0.05, 0.3]),
+                          laser_waist=rng.choice([50.0, 175.0]))]
+    if k == "spam+doppler":
+        return [how, dict(noise=["SPAM", "doppler"], eta=rng.choice([0.5, 0.99]), epsilon=0.01,
+                          epsilon_prime=0.0, temperature=1000.0)]
+    return [how, dict(noise=["dephasing"], dephasing_rate=0.1, hyperfine_dephasing_rate=0.0)]
+
+
+def clean_step(rng, xy):
+    """a configuration under which no atom is badly prepared and nothing is
+    drawn at random: the Hamiltonian must be the documented one again"""
+    k = rng.choice(["reset", "none", "spam-meas", "spam-meas", "spam-meas", "dephasing"] if not xy
+                   else ["reset", "none", "spam-meas", "spam-meas"])
+    if k == "reset":
+        return ["reset", None]
+    if k == "none":
+        return ["set", dict(noise=[])]
+    if k == "spam-meas":
+        return ["set", dict(noise=["SPAM"], eta=0.0, epsilon=rng.choice([0.01, 0.02]),
+                            epsilon_prime=rng.choice([0.0, 0.05]))]
+    return ["set", dict(noise=["dephasing"], dephasing_rate=0.05, hyperfine_dephasing_rate=0.0)]
+
+
+def gen_history(rng, xy):
+    """set_config / add_config / reset_config calls on ONE emulator, ending in a
+    clean configuration; the oracle is applied after the history"""
+    steps = [noisy_step(rng, xy) for _ in range(rng.choice([1, 1, 2, 3]))]
+    if rng.random() < 0.25:
+        steps.insert(rng.randint(0, len(steps)), clean_step(rng, xy))
+    steps.append(clean_step(rng, xy))
+    if not xy and rng.random() < 0.15:
+        steps.append(["add", dict(noise=["dephasing"], dephasing_rate=0.2, hyperfine_dephasing_rate=0.0)])
+    return steps
+
+
 def gen_case(rng: random.Random, tier: str):
     xy = rng.random() < 0.3
     dim3 = rng.random() < 0.3
@@ -203,6 +253,7 @@ def gen_case(rng: random.Random, tier: str):
     p_extra = 0.4 if (xy and "slm" in profile) else 0.2
     if n < nmax and rng.random() < p_extra and len(pts) > n:
         extra = [[names[n], pts[n]]]
+    history = gen_history(rng, xy) if rng.random() < 0.4 else []
     rate = 1.0 if rng.random() < 0.7 else rng.choice([0.5, 0.3, 0.8, 0.25, 0.9])
     probes = [["frac", 0.0], ["frac", 1.0], ["frac", rng.random()], ["frac", rng.random()],
               ["mask", -1], ["mask", 0], ["mask", 1],
@@ -211,4 +262,5 @@ def gen_case(rng: random.Random, tier: str):
         level=rng.choice(LEVELS), c3=rng.choice([3700.0, 3700.0, 1234.5]), xy=xy, mag=mag,
         atoms=atoms, extra_atoms=extra, bw=bw, ops=ops, rate=rate,
         direct=rng.random() < 0.25, probes=probes, profile=profile,
+        history=history, np_seed=rng.randrange(2**31),
     )
